@@ -8,6 +8,9 @@ namespace EphVerif.C20Spec
 
 def reputationFloor : Int := -100
 
+/-- a valid public key of the handshake group: an element of (1, p) for p = 2^31 - 1 -/
+def keyValid (pub : Nat) : Bool := decide (1 < pub) && decide (pub < 2147483647)
+
 /-- what can be seen of one claimed peer -/
 structure Seen where
   key : String := "-"        -- session key known to the node for the peer
